@@ -543,6 +543,7 @@ Definition check_parse (t : bytes) (r : out (list expansion)) (rendered : bytes)
 Definition step (s : state) (e : event) : state * list finding :=
   match e with
   | EvNew rid => (set_r s rid new_rst, [])
+  | EvNewPanic rid => (s, [(FPanic, [])])         (* Router::new() unwound *)
   | EvClone a b =>
     match get_r s a with
     | Some x => (set_r s b x, [])
